@@ -32,6 +32,36 @@ class Ctx:
         return False
 
 
+SHRINK_BUDGET = 45   # seconds of minimisation per worker after its first failing case
+
+
+def _budgeted(fn):
+    """Bound the time Hypothesis spends shrinking: once SHRINK_BUDGET has passed since the first failing case, inputs not
+    seen before are passed without being executed (so the shrinker stops making progress), inputs seen before keep their
+    recorded outcome (so the final replay of the minimal case fails again).  Only the quality of minimisation depends on
+    the clock, never a verdict."""
+    cache = {}
+    t_fail = [None]
+
+    def test(x):
+        key = common.chash(x)
+        if key in cache:
+            if cache[key] is not None:
+                raise Found(cache[key])
+            return
+        if t_fail[0] is not None and time.time() - t_fail[0] > SHRINK_BUDGET:
+            return
+        try:
+            fn(x)
+            cache[key] = None
+        except Found as f:
+            cache[key] = f.payload
+            if t_fail[0] is None:
+                t_fail[0] = time.time()
+            raise
+    return test
+
+
 def findings_path():
     return os.environ.get("VERIF_FINDINGS") or None
 
@@ -50,7 +80,7 @@ def run(prop, level, rule, tier, seed, make_strategy, case_fn, confirm_fn, repla
         wd = os.path.join(root, "w%02d" % i)
         os.makedirs(wd, exist_ok=True)
         ctx = Ctx(prop, level, tier, common.sub_seed(seed, prop, "worker", i), rule, wd, i, fpath)
-        found = farm.explore(lambda x: case_fn(ctx, x), make_strategy(ctx), n_examples, ctx.seed)
+        found = farm.explore(_budgeted(lambda x: case_fn(ctx, x)), make_strategy(ctx), n_examples, ctx.seed)
         shutil.rmtree(wd, ignore_errors=True)
         return {"ev": ctx.ev.partial(), "found": found, "idx": i}
 
